@@ -376,6 +376,14 @@ func init() {
 				samples = append(samples, tr)
 			}
 		}
+		// one wrapper instance around TWO listeners (Caddy wraps every listen address with the same wrapper)
+		for k := 0; k < 3; k++ {
+			tr, err := runListenerTwo(len(scens)+k, *seed)
+			if err != nil {
+				return err
+			}
+			lw.Write(tr)
+		}
 		if err := lw.Close(); err != nil {
 			return err
 		}
@@ -397,4 +405,147 @@ func (c *closeObs) Close() error {
 		}
 	})
 	return c.Conn.Close()
+}
+
+// runListenerTwo: the same provisioned ListenerWrapper wraps listeners A and B. A connection accepted on one must come
+// out of that one's Accept; closing A must leave B working: a connection offered on B afterwards is still delivered by
+// B, and B's Accept reports closure only once B itself is closed.
+func runListenerTwo(idx int, seed int64) (*lnTrace, error) {
+	shared := vh.NewRecorder(nil)
+	ctx, err := vh.CaddyContext()
+	if err != nil {
+		return nil, err
+	}
+	base := runtime.NumGoroutine()
+	cfg, _ := json.Marshal(map[string]any{"routes": lnRoutes(), "matching_timeout": int64(5 * time.Second)})
+	lw := new(layer4.ListenerWrapper)
+	if err := json.Unmarshal(cfg, lw); err != nil {
+		return nil, err
+	}
+	if err := lw.Provision(ctx); err != nil {
+		return nil, err
+	}
+	fls := map[string]*vh.FakeListener{"A": vh.NewFakeListener(), "B": vh.NewFakeListener()}
+	lns := map[string]net.Listener{"A": lw.WrapListener(fls["A"]), "B": lw.WrapListener(fls["B"])}
+	type ci struct {
+		rec *vh.Recorder
+	}
+	conns := map[string]*ci{}
+	var cmu sync.Mutex
+	n := 0
+	offer := func(on string, expect bool) {
+		n++
+		id := fmt.Sprintf("k%d", n)
+		slen := 300
+		rec := vh.NewRecorder(vh.MakeStream(seed*1000+int64(idx*16+n), slen+64))
+		rec.Kind, rec.ID, rec.Sink = "fall", id, shared
+		addr := &net.TCPAddr{IP: net.IPv4(10, 2, byte(idx%250), byte(n)), Port: 21000 + n}
+		scn := &vh.ScriptConn{Rec: rec, Slen: slen, EndKind: "eof", Start: time.Now(), Unit: time.Hour, Remote: addr}
+		vh.RegisterRec(addr.String(), rec)
+		cmu.Lock()
+		conns[addr.String()] = &ci{rec: rec}
+		cmu.Unlock()
+		shared.Add(vh.Ev{"e": "Offer", "c": id, "kind": "fall", "slen": slen, "from": 0, "tls": false, "ln": on})
+		if expect {
+			shared.Add(vh.Ev{"e": "Expect", "c": id})
+		}
+		fls[on].Offer(scn)
+	}
+	var cwg sync.WaitGroup
+	dones := map[string]chan struct{}{"A": make(chan struct{}), "B": make(chan struct{})}
+	for _, name := range []string{"A", "B"} {
+		go func(name string) {
+			defer close(dones[name])
+			for {
+				c, err := lns[name].Accept()
+				if err != nil {
+					if errors.Is(err, net.ErrClosed) {
+						shared.Add(vh.Ev{"e": "AccClosed", "ln": name})
+					} else {
+						shared.Add(vh.Ev{"e": "AccErr", "msg": err.Error(), "ln": name})
+					}
+					return
+				}
+				cmu.Lock()
+				k := conns[c.RemoteAddr().String()]
+				cmu.Unlock()
+				if k == nil {
+					shared.Add(vh.Ev{"e": "Acc", "c": "?", "ln": name})
+					continue
+				}
+				shared.Add(vh.Ev{"e": "Acc", "c": k.rec.ID, "ln": name})
+				cwg.Add(1)
+				go func(c net.Conn, k *ci) {
+					defer cwg.Done()
+					var segs vh.Segs
+					buf := make([]byte, 4096)
+					k.rec.InHandler = true
+					for {
+						n, err := c.Read(buf)
+						if n > 0 {
+							segs = k.rec.NoteRead(segs, buf[:n])
+						}
+						if err != nil || n == 0 {
+							break
+						}
+					}
+					if segs == nil {
+						segs = vh.Segs{}
+					}
+					shared.Add(vh.Ev{"e": "CRead", "c": k.rec.ID, "segs": segs, "tls": false})
+					shared.Add(vh.Ev{"e": "CClose", "c": k.rec.ID})
+					c.Close()
+				}(c, k)
+			}
+		}(name)
+	}
+	settle := func(maxMs int) {
+		last, stable := -1, 0
+		for i := 0; i < maxMs/2 && stable < 8; i++ {
+			time.Sleep(2 * time.Millisecond)
+			if n := shared.Len(); n == last {
+				stable++
+			} else {
+				last, stable = n, 0
+			}
+		}
+	}
+	offer("A", true)
+	offer("B", true)
+	offer("A", true)
+	settle(1000)
+	shared.Add(vh.Ev{"e": "LnClose", "ln": "A"})
+	lns["A"].Close()
+	settle(500)
+	offer("B", true) // B is still open: this one must be delivered, by B
+	offer("B", true)
+	settle(1000)
+	shared.Add(vh.Ev{"e": "LnClose", "ln": "B"})
+	lns["B"].Close()
+	for _, name := range []string{"A", "B"} {
+		select {
+		case <-dones[name]:
+		case <-time.After(3 * time.Second):
+			shared.Add(vh.Ev{"e": "AccHang", "ln": name})
+		}
+	}
+	cwg.Wait()
+	leak := 0
+	for i := 0; i < 500; i++ {
+		leak = runtime.NumGoroutine() - base
+		if leak <= 0 {
+			break
+		}
+		time.Sleep(10 * time.Millisecond)
+	}
+	shared.Add(vh.Ev{"e": "Leak", "n": leak})
+	hist := []vh.Ev{}
+	for _, e := range shared.Snapshot() {
+		switch e["e"] {
+		case "Pull", "Sock", "Dl", "Handle", "HRead", "HPull", "Fallback", "Term":
+			continue
+		}
+		hist = append(hist, e)
+	}
+	return &lnTrace{ID: fmt.Sprintf("listener:two:%d", idx), Scen: lnScen{Mix: []string{"fall", "fall", "fall", "fall", "fall"}, Consumer: "fast", Procs: runtime.GOMAXPROCS(0), Slen: 300, Close: "A-then-B"}, Complete: true, Hist: hist}, nil
 }
